@@ -19,7 +19,7 @@ import (
 // C11: reconnection liveness and retry pacing after non-damping faults, over
 // all fault histories up to a length, in virtual time.
 
-var c11Faults = []string{"refuse", "stall", "fin@0", "fin@1", "fin@2", "rst@0", "rst@1", "rst@2", "cease@0", "cease@1", "cease@2", "inbound-fin"}
+var c11Faults = []string{"refuse", "stall", "fin@0", "fin@1", "fin@2", "rst@0", "rst@1", "rst@2", "cease@0", "cease@1", "cease@2", "inbound-fin", "rst@9", "fin@9"}
 
 type c11Case struct {
 	History  []int `json:"history"` // indices into c11Faults
@@ -51,6 +51,8 @@ func c11Apply(w *world.World, r *world.Remote, f string, o *c11Obs) {
 	kind := f[:strings.IndexByte(f, '@')]
 	ok := true
 	switch st {
+	case 9:
+		// at accept: the remote does not wait for corebgp's OPEN (the fault may land before, while or after it is written)
 	case 0:
 		// connected, corebgp is in OpenSent; read its OPEN first so the fault hits that state
 		_, ok = r.Expect(wire.TypeOpen)
